@@ -105,7 +105,7 @@ func reportVerdict(rt *rapid.T, c *evid.Collector, v *enginesim.Verdict, r *engi
 
 func TestC02(t *testing.T) {
 	c := evid.New("C02")
-	c.Rule = "histories = funding prefix + 1-3 rounds of 1-4 concurrent creates/reverts (source named by literal, variable, metadata lookup, ordered list, with/without overdraft, posting mode, balance()) x a generated scheduling choice list over every gate (lock, balance read, tx-id, chaining, hand-off, InsertLogs latency, ack). Oracle: independent fold of the persisted log, per-debit floor. Non-trivial = at least two create/revert requests in flight at the same time, or an insufficient-funds rejection; distinct by operations + gate trace."
+	c.Rule = "histories = funding prefix + 1-3 rounds of 1-4 concurrent creates/reverts (source named by literal, variable, metadata lookup, ordered list, with/without overdraft, posting mode, balance()) x a generated scheduling choice list over every gate (lock, balance read, tx-id, chaining, hand-off, InsertLogs latency, ack). A fifth of the rounds are 3-5 creates sharing one script text whose two payers and payee are variables (@world among the first payers; some sequential, some racing); up to two requests per history are held back at a drawn point while everything else moves. Oracle: independent fold of the persisted log, per-debit floor. Non-trivial = at least two create/revert requests in flight at the same time, or an insufficient-funds rejection; distinct by operations + gate trace."
 	c.Assumptions = []string{engineAssumption}
 	cfg := enginesim.DefaultConfig()
 	cfg.Kinds = []enginesim.OpKind{enginesim.OpCreate, enginesim.OpCreate, enginesim.OpCreate, enginesim.OpCreate, enginesim.OpRevert, enginesim.OpSaveMeta}
@@ -115,6 +115,8 @@ func TestC02(t *testing.T) {
 	cfg.Crashes = 1 // a restart in the middle changes nothing about what the log may contain
 	cfg.ReadFaults = 1
 	cfg.Cancels = 3 // callers that go away while their request holds locks
+	cfg.Holds = 2
+	cfg.VarSourcesPct = 20 // one cached program, many bindings of its payers (@world among them)
 	runProp(t, c, func(rt *rapid.T) {
 		plan := enginesim.GenPlan(rt, cfg)
 		r := runEngine(t, rt, c, plan)
@@ -160,6 +162,7 @@ func TestC05(t *testing.T) {
 	cfg.Crashes = 2
 	cfg.Faults = 1
 	cfg.Cancels = 1
+	cfg.Holds = 1
 	cfg.SmallBatches = true
 	cfg.RefBurstPct = 20 // several writes in flight together: batches fill up and split
 	cfg.RefPool = nil    // (without a shared reference, so that all of them commit)
@@ -211,7 +214,7 @@ var c07LongKey = "long-" + strings.Repeat("0123456789abcdef", 20)
 
 func TestC07(t *testing.T) {
 	c := evid.New("C07")
-	c.Rule = "histories in which 2-4 identical requests of every write kind share an idempotency key (pool of 2 keys): sequential, racing (choice lists over run.ik.taken, store lookup, execution, run.wait) and retried after a crash placed anywhere; side class: same key on different requests. Oracle: <=1 entry per key; every success returns that entry's outcome. Non-trivial = >=2 same-key requests overlapping or straddling a restart; distinct by operations + gate trace."
+	c.Rule = "histories in which 2-4 identical requests of every write kind share an idempotency key (pool of 2 keys): sequential, racing (choice lists over run.ik.taken, store lookup, execution, run.wait) and retried after a crash placed anywhere; side class: same key on different requests; callers that go away at the moment their entry is handed to the batcher; one request held back while the others run. One case in 16 is parallel: 10-40 rounds of 2-8 real goroutines released together with the same keyed request against one real Commander. Oracle: <=1 entry per key; every success returns that entry's outcome. Non-trivial = >=2 same-key requests overlapping or straddling a restart; distinct by operations + gate trace."
 	c.Assumptions = []string{engineAssumption}
 	cfg := enginesim.DefaultConfig()
 	cfg.IKPool = []string{"", "k1", "k1", "k2", "k2", c07LongKey} // one key longer than any column or buffer is likely to be
@@ -220,7 +223,13 @@ func TestC07(t *testing.T) {
 	cfg.RefPool = []string{"", "", "r1"}
 	cfg.ReadFaults = 2
 	cfg.Cancels = 1
+	cfg.HandoffCancels = 2 // the caller goes away while its entry is in flight, and the same key comes again
+	cfg.Holds = 1
 	runProp(t, c, func(rt *rapid.T) {
+		if rapid.IntRange(0, 15).Draw(rt, "parallelFamily") == 0 {
+			parallelClaims(rt, c, "C07", parKey)
+			return
+		}
 		plan := enginesim.GenPlan(rt, cfg)
 		identical := rapid.IntRange(0, 4).Draw(rt, "identicalClass") > 0
 		if identical {
@@ -265,7 +274,7 @@ func TestC07(t *testing.T) {
 
 func TestC10(t *testing.T) {
 	c := evid.New("C10")
-	c.Rule = "one case in twelve goes over HTTP (single revert routes of v1 / v2 and bulk elements; force given as true, false or not at all; the mode applied must be the one each request states); otherwise: histories: funded accounts, committed transactions of generated shapes (multi-posting, posting mode, zero amounts, world on either side), later spends that do or do not move the funds on, then 1-4 reverts per round (forced/unforced, same or different targets, racing), optional crash. Oracle: revert postings = original reversed and swapped, <=1 revert per target, unforced revert never overdraws (fold with grant 0), balances restored when nothing else touched them, one success per target. Non-trivial = a revert entry of a >=2-posting target, or racing reverts of one target, or a refused revert; distinct by operations + gate trace."
+	c.Rule = "one case in twelve goes over HTTP (single revert routes of v1 / v2 and bulk elements; force given as true, false or not at all; the mode applied must be the one each request states); otherwise: histories: funded accounts, committed transactions of generated shapes (multi-posting, posting mode, zero amounts, world on either side), later spends that do or do not move the funds on, then 1-4 reverts per round (forced/unforced, same or different targets, racing; a third of the histories hold a transaction of 13-24 postings which reverts aim at; up to two requests held back at a drawn point while the others run to completion), optional crash. One case in 16 is parallel: real goroutines released together on one revert target, at most one may take effect. Oracle: revert postings = original reversed and swapped, <=1 revert per target, unforced revert never overdraws (fold with grant 0), balances restored when nothing else touched them, one success per target. Non-trivial = a revert entry of a >=2-posting target, or racing reverts of one target, or a refused revert; distinct by operations + gate trace."
 	c.Assumptions = []string{engineAssumption}
 	cfg := enginesim.DefaultConfig()
 	cfg.Kinds = []enginesim.OpKind{enginesim.OpCreate, enginesim.OpRevert, enginesim.OpRevert, enginesim.OpRevert}
@@ -273,12 +282,18 @@ func TestC10(t *testing.T) {
 	cfg.Crashes = 1
 	cfg.ReadFaults = 1
 	cfg.Cancels = 1
+	cfg.Holds = 2          // a request that is very slow at one point while another runs from start to finish
+	cfg.LongPrefixPct = 30 // a transaction of 13-24 postings to revert
 	cfg.IKPool = nil
 	cfg.UniqueIKPct = 35 // requests carrying a key that was never used before
 	cfg.RefPool = nil
 	runProp(t, c, func(rt *rapid.T) {
 		if rapid.IntRange(0, 11).Draw(rt, "httpFamily") == 0 {
 			c10HTTP(rt, c)
+			return
+		}
+		if rapid.IntRange(0, 15).Draw(rt, "parallelFamily") == 0 {
+			parallelClaims(rt, c, "C10", parRevert)
 			return
 		}
 		plan := enginesim.GenPlan(rt, cfg)
@@ -328,7 +343,7 @@ func TestC10(t *testing.T) {
 
 func TestC11(t *testing.T) {
 	c := evid.New("C11")
-	c.Rule = "histories in which 2-4 creates share a reference (pool of 2 + none), some of them previews, with reverts of earlier transactions in between (a reverted transaction keeps its reference): racing (choice lists over exec.ref.taken, the store lookup, the competitor's hand-off, InsertLogs commit and ack), competitor succeeding or failing (insufficient funds, compile error, metadata clash, store fault), later sequential attempts, restart in between. Oracle: <=1 committed transaction per reference; refusals are CONFLICT when the reference was committed before the attempt started; no spurious CONFLICT. Non-trivial = >=2 same-reference requests overlapping; distinct by operations + gate trace."
+	c.Rule = "histories in which 2-4 creates share a reference (pool of 2 + none), some of them previews, with reverts of earlier transactions in between (a reverted transaction keeps its reference): racing (choice lists over exec.ref.taken, the store lookup, the competitor's hand-off, InsertLogs commit and ack), competitor succeeding or failing (insufficient funds, compile error, metadata clash, store fault), later sequential attempts, restart in between. One case in 12 is parallel: 10-40 rounds of 2-8 real goroutines released together with creates on one reference against one real Commander (the reservation has no blocking point a scheduler could own). Oracle: <=1 committed transaction per reference; refusals are CONFLICT when the reference was committed before the attempt started; no spurious CONFLICT. Non-trivial = >=2 same-reference requests overlapping; distinct by operations + gate trace."
 	c.Assumptions = []string{engineAssumption}
 	cfg := enginesim.DefaultConfig()
 	cfg.Kinds = []enginesim.OpKind{enginesim.OpCreate, enginesim.OpCreate, enginesim.OpCreate, enginesim.OpCreate, enginesim.OpSaveMeta, enginesim.OpRevert, enginesim.OpRevert}
@@ -342,9 +357,15 @@ func TestC11(t *testing.T) {
 	cfg.Faults = 1
 	cfg.ReadFaults = 2
 	cfg.Cancels = 3 // callers that go away, e.g. while their log is being persisted, and retry
+	cfg.HandoffCancels = 1
+	cfg.Holds = 2
 	cfg.FailingPct = 15
 	cfg.IKPool = []string{"", "", "", "k1"}
 	runProp(t, c, func(rt *rapid.T) {
+		if rapid.IntRange(0, 11).Draw(rt, "parallelFamily") == 0 {
+			parallelClaims(rt, c, "C11", parReference)
+			return
+		}
 		plan := enginesim.GenPlan(rt, cfg)
 		r := runEngine(t, rt, c, plan)
 		if r == nil {
@@ -401,6 +422,8 @@ func TestC16(t *testing.T) {
 	cfg.ReadFaults = 1
 	cfg.Cancels = 3
 	cfg.Closes = 2 // graceful shutdowns with writes in flight
+	cfg.HandoffCancels = 1
+	cfg.Holds = 1 // one request may be very slow at one point while the others run
 	cfg.RefBurstPct = 25
 	cfg.RefPool = nil // bursts of writes that all commit: several logs queued behind the one being persisted
 	runProp(t, c, func(rt *rapid.T) {
